@@ -390,7 +390,7 @@ impl VarFile {
                 let mut idx = idx;
                 //
                 let mut byte_8 = 0;
-                while byte_8 == 0 && idx < buckets_size - 8 {
+                while byte_8 == 0 && idx + 8 < buckets_size {
                     byte_8 = self.read_u64_le()?;
                     idx += 8 * 8;
                 }
